@@ -37,7 +37,8 @@ EXPLANATION = (
     "fit and _find_hyperparameters. (c) decision_function selects "
     "psms.features by self.features (names) before scaler.transform, "
     "self.features is taken from the same frame whose values are scaled in "
-    "fit, and a feature-set mismatch raises. NOT decided: solver "
+    "fit, and a feature-set mismatch raises. Also: the label definition of C01d (shared clause). "
+    "NOT decided: solver "
     "tolerance, pickling of third-party estimators.")
 TECHNIQUE = ("abstract interpretation over a row-alignment domain with flag "
              "case split + finite truth table + def-use term matching")
